@@ -311,7 +311,7 @@ def run(ctx):
     from . import sha2eq
     got3 = []
     ctx.guard("compress-eq", "sha256", lambda: got3.append(sha2eq.check_sha256(ctx, progs, thorough=(ctx.tier == "thorough"))))
-    want3 = 6 + (2 if ctx.tier == "thorough" else 0)
+    want3 = 7 + (2 if ctx.tier == "thorough" else 0)
     ctx.check(got3 == [want3], "floor", "compress-eq", "%d SHA-256 block-function runs (portable, 4-way SSE4.1 incl. scalar tail, 8-way AVX) equal the FIPS 180-4 compression as value graphs, hence each other" % want3, "only %s SHA-256 comparisons ran (expected %d)" % (got3, want3), key="floor:compress-eq")
     from . import arx
     got2 = []
